@@ -74,6 +74,57 @@ def getter_fields(m):
     return out
 
 
+
+def check_index_bounds(ctx, m, rule='C15.R9', tail=''):
+    """A positional index taken from the request is bounded on both sides before it selects an instance."""
+    ctx.rule(rule, 'wherever the engine tests a positional index against the length of a collection (`i < len(xs)`) and then selects with it (xs[i], xs.pop(i), del xs[i]), the index is bounded from below as well (`0 <= i < len(xs)`, or a dominating `i >= 0`): a negative index from the request would otherwise address an instance counted from the end - DeleteAttribute would remove an instance nobody addressed - or make the selection raise IndexError, which is answered with General Failure' + tail)
+    n = 0
+    for name, fn in sorted(m.methods.items()):
+        g = None
+        for iff in [x for x in walk_local(fn) if isinstance(x, ast.If)]:
+            for cmpn in [c for c in ast.walk(iff.test) if isinstance(c, ast.Compare)]:
+                operands = [cmpn.left] + list(cmpn.comparators)
+                for k, op in enumerate(cmpn.ops):
+                    a, b = operands[k], operands[k + 1]
+                    idx = None
+                    if isinstance(op, ast.Lt) and isinstance(b, ast.Call) and call_name(b) == 'len' and not isinstance(a, ast.Constant):
+                        idx = a
+                    elif isinstance(op, ast.Gt) and isinstance(a, ast.Call) and call_name(a) == 'len' and not isinstance(b, ast.Constant):
+                        idx = b
+                    if idx is None:
+                        continue
+                    it = U(idx)
+                    selects = [x for st in iff.body for x in ast.walk(st)
+                               if (isinstance(x, ast.Subscript) and not isinstance(x.slice, ast.Slice) and U(x.slice) == it)
+                               or (isinstance(x, ast.Call) and isinstance(x.func, ast.Attribute) and x.func.attr in ('pop', 'insert') and x.args and U(x.args[0]) == it)
+                               or (isinstance(x, ast.Call) and is_self_attr(x.func) and any(U(a_) == it for a_ in x.args))]        # handed to a helper that selects with it
+                    if not selects:
+                        continue
+                    n += 1
+
+                    def lower(c_):
+                        ops_ = [c_.left] + list(c_.comparators)
+                        for j, o in enumerate(c_.ops):
+                            x_, y_ = ops_[j], ops_[j + 1]
+                            if isinstance(o, (ast.LtE, ast.Lt)) and isinstance(x_, ast.Constant) and isinstance(x_.value, int) and U(y_) == it and (x_.value >= 0 if isinstance(o, ast.LtE) else x_.value >= -1):
+                                return True
+                            if isinstance(o, (ast.GtE, ast.Gt)) and isinstance(y_, ast.Constant) and isinstance(y_.value, int) and U(x_) == it and (y_.value >= 0 if isinstance(o, ast.GtE) else y_.value >= -1):
+                                return True
+                        return False
+                    ok = any(lower(c_) for c_ in ast.walk(iff.test) if isinstance(c_, ast.Compare))
+                    if not ok:
+                        if g is None:
+                            g = CFG(fn)
+                        tn = [x for x in g.nodes if x.kind == 'test' and (x.stmt is iff.test or any(y is cmpn for y in ast.walk(x.stmt)))]
+                        for t0 in tn[:1]:
+                            for tt, lab in dominating_edges(g, t0):
+                                for c_ in [c for c in ast.walk(tt.stmt) if isinstance(c, ast.Compare)]:
+                                    if lab == 'T' and lower(c_):
+                                        ok = True
+                    ctx.check(ok, rule, 'KmipEngine.%s|%s bounded below' % (name, it), m.site(cmpn, fn), '%s is tested against 0 and against the length before it selects' % it,
+                              'the index %s is only tested against the length (%s) before it selects an instance: a negative index counts from the end (another instance than the one addressed), and one below -len raises IndexError (General Failure)' % (it, U(cmpn)))
+    ctx.count('length_bounded_index_selections', n, 3)
+
 def run(ctx):
     src = ctx.src
     ai = EngineAI.shared(src)
@@ -250,5 +301,6 @@ def run(ctx):
                  '%s raises %s after the loaded object was already modified (%s): the call fails but its change is persisted by the next commit in the batch' % (fn, exc, sorted(e['state']['dirty'])))
     if not bad4:
         ctx.ok('C15.R4', ENGINE, 'none of the %d failure exits of the three operations is reached with a modified object' % n_r4)
+    check_index_bounds(ctx, m, 'C15.R9')
     ctx.not_decided += ['"exactly the addressed instance" for positional indices after deletions (value-level)', 'that GetAttributes afterwards reflects the change (C05)']
     ctx.assumptions += ['T_PROTECTED transcribes the property statement (owner has no attribute name; its field _owner is included)']
